@@ -87,6 +87,15 @@ inductive Expr where
   | not (a : Expr)
   | call0 (f : Str)                 -- `f()`
   | call1 (f : Str) (a : Expr)      -- `f(a)`
+  | fmt1 (s0 : Str) (a : Expr) (s1 : Str)                         -- `'s0%ss1' % a`
+  | fmt2 (s0 : Str) (a : Expr) (s1 : Str) (b : Expr) (s2 : Str)   -- `'s0%ss1%ss2' % (a, b)`
+  | genexp (body : Expr) (x : Str) (src : Expr)
+                                    -- `(body for x in src)`: a NESTED scope.  `src` is evaluated (and `iter()`
+                                    -- applied) where the expression stands; `body` is code of the nested scope
+                                    -- and runs at each `next()` of the generator object, reading every name but
+                                    -- `x` through `__data__` of the globals of its `eval` — the render's Context
+                                    -- as it is THEN.  `map(lambda x: body, src)` (lazy in Python 3) is the same.
+  | lam (x : Str) (body : Expr)     -- `lambda x: body`: the body is code of a nested scope as well
   deriving DecidableEq, Repr, Inhabited
 
 inductive Err where
@@ -171,7 +180,10 @@ inductive TEv where
   | incl (t : Option Nat) (fb : Option Ref)
                                     -- INCLUDE with a static href: the template the loader finds for it
                                     -- (`none`: TemplateNotFound) and the prepared fallback list
-  | other                           -- EXEC, INCLUDE with a computed href:
+  | execGen (name x : Str) (src body : Expr)
+                                    -- EXEC whose suite is one generator function
+                                    -- `def name():` / `for x in src:` / `yield body`
+  | other                           -- other EXEC, INCLUDE with a computed href:
                                     -- outside the step model
   deriving DecidableEq, Repr, Inhabited
 
@@ -232,7 +244,30 @@ inductive Val where
   | macro (m : Macro)         -- a function defined by `py:def`
   | gen0 (m : Macro)          -- the generator object `f()` returns: nothing has run yet
   | gen1 (m : Macro) (a : Val)
+  | genx (x : Str) (items : List Atom) (body : Expr)
+                              -- the generator object of `(body for x in src)`: the items `iter(src)` still has,
+                              -- nothing of `body` has run for them.  A mutable object: the model lets it live only
+                              -- in the iterator that consumes it (`It.genexp`, `It.forNextG`), storing it in the
+                              -- context is outside the model
+  | genfn (name x : Str) (src body : Expr)
+                              -- the generator function a `<?python ?>` block defined (stored in the context by the
+                              -- `exec`); its globals hold `__data__` = the render's Context
+  | genf (x : Str) (src body : Expr)
+                              -- the generator object `name()` returned: nothing has run, not even `src`
+  | lam (x : Str) (body : Expr)
+                              -- a function made by `lambda` (immutable; its globals hold `__data__` = the Context)
   deriving DecidableEq, Repr, Inhabited
+
+/-- generator objects (consumed by iteration: value semantics would be wrong once two places hold one) -/
+def Val.isGenerator : Val → Bool
+  | .gen0 _ | .gen1 _ _ | .genx _ _ _ | .genf _ _ _ => true
+  | _ => false
+
+/-- `iter(value)` for the data values of the fragment -/
+def iterItems : Val → Option (List Atom)
+  | .list xs => some xs
+  | .atom (.str s) => some (s.map fun ch => .str [ch])
+  | _ => none
 
 def Lit.val : Lit → Val
   | .atom a => .atom a
@@ -317,25 +352,33 @@ def callVal (f : Option Val) (arg : Option Val) : Except Err Val :=
   | some (.macro m) =>
     (match arg with
      | none => .ok (.gen0 m)
-     | some a => .ok (.gen1 m a))
+     | some a => if a.isGenerator then .error .unmodelled else .ok (.gen1 m a))
   | some (.opaque _) => .error .unmodelled
+  | some (.genfn _ x src body) =>
+    (match arg with
+     | none => .ok (.genf x src body)
+     | some _ => .error .typeError)            -- takes 0 positional arguments
+  | some (.lam _ _) =>
+    (match arg with
+     | none => .error .typeError               -- missing 1 required positional argument
+     | some _ => .error .unmodelled)           -- a call of a lambda below the top of an expression: see `eval`
   | some _ => .error .typeError
 
-def eval (fs : List Frame) : Expr → Except Err Val
+def evalBase (fs : List Frame) : Expr → Except Err Val
   | .var n =>
     match lookupFrames fs n with
     | some v => .ok v
     | none => .error .undefined
   | .lit v => .ok v.val
   | .eq a b =>
-    match eval fs a with
+    match evalBase fs a with
     | .error e => .error e
     | .ok x =>
-      match eval fs b with
+      match evalBase fs b with
       | .error e => .error e
       | .ok y => .ok (.atom (.bool (x.pyEq y)))
   | .not a =>
-    match eval fs a with
+    match evalBase fs a with
     | .error e => .error e
     | .ok x => .ok (.atom (.bool (!x.truthy)))
   | .call0 f =>
@@ -346,8 +389,51 @@ def eval (fs : List Frame) : Expr → Except Err Val
     match lookupFrames fs f with
     | none => .error .undefined
     | some fv =>
-      match eval fs a with
+      match evalBase fs a with
       | .error e => .error e
       | .ok x => callVal (some fv) (some x)
+  | .fmt1 s0 a s1 =>
+    match evalBase fs a with
+    | .error e => .error e
+    | .ok (.atom x) => .ok (.atom (.str (s0 ++ x.text ++ s1)))
+    | .ok _ => .error .unmodelled
+  | .fmt2 s0 a s1 b s2 =>
+    match evalBase fs a with
+    | .error e => .error e
+    | .ok x =>
+      match evalBase fs b with
+      | .error e => .error e
+      | .ok y =>
+        match x, y with
+        | .atom x, .atom y => .ok (.atom (.str (s0 ++ x.text ++ s1 ++ y.text ++ s2)))
+        | _, _ => .error .unmodelled
+  | .genexp body x src =>
+    -- the outermost iterable is evaluated, and `iter()` called on it, at once; the body not at all
+    match evalBase fs src with
+    | .error e => .error e
+    | .ok v =>
+      match v with
+      | .atom _ | .list _ =>
+        (match iterItems v with
+         | some items => .ok (.genx x items body)
+         | none => .error .typeError)
+      | .opaque _ | .macro _ | .genfn _ _ _ _ | .lam _ _ => .error .typeError
+      | _ => .error .unmodelled
+  | .lam x body => .ok (.lam x body)
+
+/-- evaluation of a template expression.  A function made by `lambda` can be called at the top of an
+    expression (`${g(y)}`): its body runs with the argument as its local and every other name looked up in the
+    Context as it is NOW (not as it was when the lambda was made).  (The two layers keep the recursion
+    structural: the body is not a sub-term of the call.) -/
+def eval (fs : List Frame) (e : Expr) : Except Err Val :=
+  match e with
+  | .call1 f a =>
+    (match lookupFrames fs f with
+     | some (.lam x body) =>
+       (match evalBase fs a with
+        | .error er => .error er
+        | .ok arg => if arg.isGenerator then .error .unmodelled else evalBase ([(x, arg)] :: fs) body)
+     | _ => evalBase fs e)
+  | _ => evalBase fs e
 
 end Genshi.Heap
